@@ -67,7 +67,8 @@ func (s *store) Save(id fix.StorageID, msg simplefixgo.SendingMessage, seq int) 
 		return errors.New("scripted store failure")
 	}
 	err := s.Storage.Save(id, msg, seq)
-	s.log.add(entry{kind: "save", seq: seq, ok: err == nil, typ: msg.MsgType()})
+	b, _ := msg.ToBytes()
+	s.log.add(entry{kind: "save", seq: seq, ok: err == nil, typ: msg.MsgType(), data: append([]byte(nil), b...)})
 	return err
 }
 
@@ -106,7 +107,7 @@ func (s *scen) String() string {
 
 func main() {
 	c := vk.Init("C19")
-	c.Rule("scenario i: PRNG draws 0..5 outgoing handlers (for ALL types and for the types Y/0/3, registered before the session exists, before Session.Run or after it, each refusing on its k-th invocation or never), 0..5 incoming handlers (ALL, 1, V), 0..4 EventLogon handlers, an instrumented message store failing on the k-th Save or never, and 8..24 steps (application Send, inbound TestRequest -> Heartbeat reply, inbound damaged message -> Reject, inbound application message); everything appends to one call log. Oracle per step: the handler chain equals the registration-order prefix up to the first refusal (ALL handlers before type handlers, the session's own Save at its registration position), a message is on Outgoing() iff the chain completed, it was saved successfully under its own 34 before, Send returned an error iff it was not transmitted, the bytes each outgoing handler could serialize equal the wire bytes; inbound ALL/type handler order likewise. distinct = scenario text; non-trivial = at least one refusal or failed save happened")
+	c.Rule("scenario i: PRNG draws 0..5 outgoing handlers (for ALL types and for the types Y/0/3, registered before the session exists, before Session.Run or after it, each refusing on its k-th invocation or never), 0..5 incoming handlers (ALL, 1, V), 0..4 EventLogon handlers, an instrumented message store failing on the k-th Save or never, and 8..24 steps (application Send through the session, application Send through the handler with its own header and a sequence number used before or 0, lowering the outgoing counter and sending again, inbound TestRequest -> Heartbeat reply, inbound damaged message -> Reject, inbound application message); everything appends to one call log. Oracle per step: the handler chain equals the registration-order prefix up to the first refusal (ALL handlers before type handlers, the session's own Save at its registration position), a message is on Outgoing() iff the chain completed, it was saved successfully under its own 34 before, Send returned an error iff it was not transmitted, the bytes each outgoing handler could serialize equal the wire bytes; inbound ALL/type handler order likewise. distinct = scenario text; non-trivial = at least one refusal or failed save happened")
 	c.Assume("what happens to type handlers after an incoming ALL-handler refusal is not judged (the statement does not say); steps where that happened do not judge whether a reply was due")
 	n := c.Pick(4000, 60000)
 	vk.Parallel(n, runtime.NumCPU(), func(i int) {
@@ -147,7 +148,7 @@ func main() {
 		}
 		nsteps := 8 + r.Intn(17)
 		for k := 0; k < nsteps; k++ {
-			sc.steps = append(sc.steps, []string{"send", "send", "testreq", "damaged", "app"}[r.Intn(5)])
+			sc.steps = append(sc.steps, []string{"send", "send", "testreq", "damaged", "app", "handler-send-reused-seqnum", "counter-lowered-then-send"}[r.Intn(7)])
 		}
 		runScenario(c, sc, i)
 	})
@@ -338,6 +339,10 @@ func runScenario(c *vk.Ctx, sc *scen, idx int) {
 			c.Violate("C19/saved-under-different-seqnum", fmt.Sprintf("%s: step %s: wire 34=%s but Save was called with %d", desc, stepName, fixref.GetS(w.Fields, rig.TSeq), savedSeq), replay)
 		}
 		for _, e := range oes {
+			if e.kind == "save" && !bytes.Equal(e.data, w.Raw) {
+				c.Violate("C19/stored-message-differs-from-transmitted", fmt.Sprintf("%s: step %s: the store was given %s under %d, the wire carries %s", desc, stepName, vk.Trunc(fixref.Pretty(e.data), 200), e.seq, vk.Trunc(fixref.Pretty(w.Raw), 200)), replay)
+				break
+			}
 			if e.kind != "save" && !bytes.Equal(e.data, w.Raw) {
 				c.Violate("C19/handler-saw-different-bytes", fmt.Sprintf("%s: step %s: outgoing handler %d serialized %s, wire has %s", desc, stepName, e.id, vk.Trunc(fixref.Pretty(e.data), 200), vk.Trunc(fixref.Pretty(w.Raw), 200)), replay)
 				break
@@ -462,6 +467,30 @@ func runScenario(c *vk.Ctx, sc *scen, idx int) {
 		switch stp {
 		case "send":
 			msg := fixgen.CreateMarketDataRequestReject("c19-" + strconv.Itoa(k))
+			res := rg.Do(func() error { return rg.S.Send(msg) })
+			if res.TimedOut {
+				c.Inconclusive("watchdog: " + desc)
+				return
+			}
+			judgeOut(name, lg.since(m), res.Outs, res.SendErr, true, 1)
+		case "handler-send-reused-seqnum":
+			// the application sends a message with its own header through the handler, numbered like an earlier message (or 0)
+			msg := fixgen.CreateMarketDataRequestReject("c19-own-header-" + strconv.Itoa(k))
+			seq := 0
+			if k%2 == 0 {
+				seq = 1
+			}
+			msg.HeaderBuilder().SetFieldMsgSeqNum(seq).SetFieldSenderCompID(rig.LibID).SetFieldTargetCompID(rig.PeerID).SetFieldSendingTime("20240101-00:00:00.000")
+			res := rg.Do(func() error { return rg.H.Send(msg) })
+			if res.TimedOut {
+				c.Inconclusive("watchdog: " + desc)
+				return
+			}
+			judgeOut(name, lg.since(m), res.Outs, res.SendErr, true, 1)
+		case "counter-lowered-then-send":
+			// the application lowers the outgoing counter (e.g. honouring ResetSeqNumFlag) and keeps sending
+			_ = st.SetSeqNum(fix.StorageID{Side: fix.Outgoing}, 0)
+			msg := fixgen.CreateMarketDataRequestReject("c19-after-reset-" + strconv.Itoa(k))
 			res := rg.Do(func() error { return rg.S.Send(msg) })
 			if res.TimedOut {
 				c.Inconclusive("watchdog: " + desc)
